@@ -1,5 +1,5 @@
-CONSTANTS Sizes = {2, 3, 4, 5, 6, 7}
-          Bytes = {0, 65, 255}
+CONSTANTS Sizes = {8}
+          Bytes = {0, 255}
           MaxBulk = 3
 SPECIFICATION Spec
 INVARIANTS TypeOK RefinementInv CountsInv AccessorInv
